@@ -45,7 +45,7 @@ FITS = {
            "range_x": {"__np__": [-7.123456789012345e-07,
                                   4.987654321098765e-07]}},
 }
-USERS = {"u1": ("alice", 5, "ok"), "u2": ("bob", 2, "hm, é")}
+USERS = {"u1": ("alice", 5, "ok"), "u2": ("bob", 2.5, "hm, é")}
 
 
 def ensure_fixtures():
